@@ -46,6 +46,23 @@ fn emulated(sig: i32, ctx: usize, e: &mut Emit) {
             let r = signal_hook::low_level::emulate_default_handler(sig);
             e.line(&format!("ret={}", match r { Ok(()) => "ok".to_string(), Err(er) => format!("err({})", er.raw_os_error().unwrap_or(-1)) }));
         }
+        7 => {
+            // another signal is blocked and pending (default disposition: it would terminate the process if
+            // it were let through): the outcome must still be that of `sig`
+            let other = if sig == libc::SIGUSR2 { libc::SIGUSR1 } else { libc::SIGUSR2 };
+            unsafe {
+                let mut sa: libc::sigaction = std::mem::zeroed();
+                sa.sa_sigaction = libc::SIG_DFL;
+                libc::sigaction(other, &sa, std::ptr::null_mut());
+                let mut set: libc::sigset_t = std::mem::zeroed();
+                libc::sigemptyset(&mut set);
+                libc::sigaddset(&mut set, other);
+                libc::sigprocmask(libc::SIG_BLOCK, &set, std::ptr::null_mut());
+                libc::raise(other);
+            }
+            let r = signal_hook::low_level::emulate_default_handler(sig);
+            e.line(&format!("ret={}", match r { Ok(()) => "ok".to_string(), Err(er) => format!("err({})", er.raw_os_error().unwrap_or(-1)) }));
+        }
         5 | 6 => {
             // "does nothing else": the signal is blocked with one instance pending, under the application's
             // own handler (5) or the default disposition (6); afterwards the mask, the pending set and the
@@ -166,6 +183,9 @@ pub fn run(_tier: Tier) -> BResult {
             }
             cells.push((s, c, true));
         }
+        if s >= 1 && s <= 64 && s != libc::SIGKILL && s != libc::SIGSTOP && signal_hook::low_level::signal_name(s).is_some() {
+            cells.push((s, 7, true));
+        }
         // blocked with a pending instance: only where the library must do nothing at all
         if s >= 1 && s <= 64 && s != 32 && s != 33 && signal_hook::low_level::signal_name(s).is_none() {
             cells.push((s, 5, true));
@@ -214,7 +234,7 @@ pub fn run(_tier: Tier) -> BResult {
         }
     }
     let native_of = |s: i32| -> Option<String> { cells.iter().position(|c| c.0 == s && !c.2).map(|i| res[i].0.clone()) };
-    let ctxn = ["normal context", "inside the signal's own action (signal blocked)", "inside its own action after unblocking it", "a delivery with register_conditional_default armed (condition true)", "a delivery with register_conditional_default not armed (condition false)", "normal context, signal blocked with one instance pending, application handler installed", "normal context, signal blocked with one instance pending, default disposition"];
+    let ctxn = ["normal context", "inside the signal's own action (signal blocked)", "inside its own action after unblocking it", "a delivery with register_conditional_default armed (condition true)", "a delivery with register_conditional_default not armed (condition false)", "normal context, signal blocked with one instance pending, application handler installed", "normal context, signal blocked with one instance pending, default disposition", "normal context while another signal (SIGUSR2 / SIGUSR1) is blocked and pending with its default disposition"];
     for (i, &(s, c, emu)) in cells.iter().enumerate() {
         if !emu {
             continue;
@@ -270,7 +290,7 @@ pub fn run(_tier: Tier) -> BResult {
         violations,
         exhaustive: true,
         caps: vec![],
-        rule: "complete grid: signal 1..64 + out-of-range numbers {0,-1,65,128,255,256,1000,MIN,MAX} + {256,512,2^16,2^24,-256,-2^16,MIN} + {TERM,TSTP,WINCH,KILL,STOP,CHLD} x context {normal, inside own action blocked, inside own action unblocked, delivery under register_conditional_default with the condition true / false; for signals without a known name also: blocked with one instance pending under an application handler / the default disposition, comparing mask, pending set, disposition and handler runs before and after}; each cell = an emulated child compared with a native child (SIG_DFL, unblock, raise) classified by waitpid(WUNTRACED) in a constructed non-orphaned process group; distinct = distinct (outcome class, return value, known?) tuples".into(),
+        rule: "complete grid: signal 1..64 + out-of-range numbers {0,-1,65,128,255,256,1000,MIN,MAX} + {256,512,2^16,2^24,-256,-2^16,MIN} + {TERM,TSTP,WINCH,KILL,STOP,CHLD} x context {normal, inside own action blocked, inside own action unblocked, delivery under register_conditional_default with the condition true / false; for known signals also: while another, terminating signal is blocked and pending; for signals without a known name also: blocked with one instance pending under an application handler / the default disposition, comparing mask, pending set, disposition and handler runs before and after}; each cell = an emulated child compared with a native child (SIG_DFL, unblock, raise) classified by waitpid(WUNTRACED) in a constructed non-orphaned process group; distinct = distinct (outcome class, return value, known?) tuples".into(),
         assumptions: vec!["the kernel's default disposition is observed, not tabulated".into(), "core dumps disabled in probes (RLIMIT_CORE=0)".into(), "KILL/STOP only from normal context; signals 32/33 (libc-internal) have no native probe".into()],
     }
 }
